@@ -763,6 +763,9 @@ def run(chk):
     chk.cov["disagreements_checked"] = ndis
     # concrete failing inputs first (the first replays written are then real witnesses)
     chk.violations.sort(key=lambda v: not v[2])
+    # the resolver model with banks (Model/Resolver2.v): layout of whole generated programs
+    import ext_resolver2
+    ext_resolver2.run_streams(chk, chk.tier == "quick", which=("layout",))
 
 
 def replay(chk, rep):
